@@ -20,7 +20,7 @@
 (* 201/202/207 are NOT applied to class 31 here (FM-94); templates that    *)
 (* put a class-31 numeric inside such a bracket are outside WF.            *)
 (***************************************************************************)
-EXTENDS Tables, Wide, Framing, FiniteSets
+EXTENDS Tables, Wide, Framing, Column, FiniteSets
 
 CONSTANTS
     Cases,          \* produce: sequence of [ids |-> descriptor list]
@@ -31,6 +31,7 @@ CONSTANTS
     Fmax,           \* largest delayed replication factor chosen in produce form
     Seeds,          \* value-class seeds
     Slack,          \* compressed columns are written with dmin .. dmin+Slack difference bits
+    ValueMode,      \* produce: "classes" (value classes rotating over positions) | "all" (every content of every field)
     Mode,           \* "produce" | "consume"
     ResetPolicy     \* "fm94": every register is re-initialised at each subset
                     \* "leaky": only what pybufrkit's switch_subset_context used to reset (new reference values)
@@ -51,12 +52,16 @@ VARIABLES
 vars == <<tid, ed, cmp, nsub, seed, sub, pc, frames, phase, reg, out, done, bits, pos, err>>
 
 (* consume form: everything about a case is read from the message octets themselves *)
-(* computed once at start-up and kept in TLC registers (see the note in Tables) *)
-ASSUME TLCSet(13, IF Mode = "consume" THEN [i \in 1..Len(Cases) |-> ParseHeader(Cases[i].msg)] ELSE <<>>)
+(* computed once at start-up and kept in TLC registers (see the note in Tables); even the constant
+   Cases is re-evaluated at every mention when it is given by a definition in the model module *)
+ASSUME TLCSet(10, Cases)
+CasesR == TLCGet(10)
+NCases == Len(CasesR)
+ASSUME TLCSet(13, IF Mode = "consume" THEN [i \in 1..NCases |-> ParseHeader(CasesR[i].msg)] ELSE <<>>)
 Hdrs == TLCGet(13)
-ASSUME TLCSet(14, [i \in 1..Len(Cases) |-> IF Mode = "consume" THEN Hdrs[i].ids ELSE Cases[i].ids])
+ASSUME TLCSet(14, [i \in 1..NCases |-> IF Mode = "consume" THEN Hdrs[i].ids ELSE CasesR[i].ids])
 Templates == TLCGet(14)
-ASSUME TLCSet(16, IF Mode = "consume" THEN [i \in 1..Len(Cases) |-> Cases[i].msg] ELSE <<>>)
+ASSUME TLCSet(16, IF Mode = "consume" THEN [i \in 1..NCases |-> CasesR[i].msg] ELSE <<>>)
 Oct == TLCGet(16)[tid]
 DataBit0 == 8 * Hdrs[tid].data0          \* bit offset of the first data bit inside the message
 
@@ -99,74 +104,21 @@ Pattern(t, w, idx, s) ==
          THEN LET c == Cls(idx, 1) IN ClassPattern(IF c = 2 THEN 1 ELSE c, w)   \* no negative zero; same for all subsets
     ELSE ClassPattern(Cls(idx, s), w)
 
+(* "all" value mode: every bit pattern of a numeric / code field (use small widths), and for
+   character fields the all-space, lettered and all-ones (missing) contents *)
+AllPatterns(t, w) == IF t = "str" THEN {StrPattern(c, w \div 8) : c \in {0, 1, 4}}
+                     ELSE {UintBits(v, w) : v \in 0..(2 ^ w - 1)}
+
 (* is this content "missing"?  Only fields wider than one bit can be. *)
 IsMissing(t, w, raw) == t \in {"num", "code", "str"} /\ w > 1 /\ IsAllOnes(raw)
 
 Val(t, w, raw) == [miss |-> IsMissing(t, w, raw), raw |-> raw]
 
-(* ---- compressed columns --------------------------------------------------- *)
-RECURSIVE MinPat(_, _, _)
-MinPat(vs, i, best) ==       \* lexicographic minimum of the non-missing patterns
-    IF i > Len(vs) THEN best
-    ELSE IF vs[i].miss THEN MinPat(vs, i + 1, best)
-    ELSE IF best = <<>> \/ BLess(vs[i].raw, best) THEN MinPat(vs, i + 1, vs[i].raw) ELSE MinPat(vs, i + 1, best)
-RECURSIVE MaxPat(_, _, _)
-MaxPat(vs, i, best) ==
-    IF i > Len(vs) THEN best
-    ELSE IF vs[i].miss THEN MaxPat(vs, i + 1, best)
-    ELSE IF best = <<>> \/ BLess(best, vs[i].raw) THEN MaxPat(vs, i + 1, vs[i].raw) ELSE MaxPat(vs, i + 1, best)
-
-AllEqual(vs) == \A i \in 1..Len(vs) : vs[i] = vs[1]
-AllMissing(vs) == \A i \in 1..Len(vs) : vs[i].miss
-
-(* smallest difference width that can hold range r (a bit pattern) next to the all-ones marker *)
-DMin(r) == LET L == SignificantBits(r) IN
-           IF L = 0 THEN 1 ELSE IF IsAllOnes(LowBits(r, L)) THEN L + 1 ELSE L
-
-(* bits of a numeric / code column written with d difference bits *)
-NumColumnBits(w, vs, d) ==
-    IF AllMissing(vs) THEN Ones(w) \o UintBits(0, 6)
-    ELSE IF AllEqual(vs) THEN vs[1].raw \o UintBits(0, 6)
-    ELSE LET mn == MinPat(vs, 1, <<>>)
-             diff(i) == IF vs[i].miss THEN Ones(d) ELSE LowBits(ZeroExtend(BSub(vs[i].raw, mn), d), d)
-             RECURSIVE Cat(_)
-             Cat(i) == IF i > Len(vs) THEN <<>> ELSE diff(i) \o Cat(i + 1)
-         IN mn \o UintBits(d, 6) \o Cat(1)
-NumColumnD(vs) ==        \* the set of legal difference widths offered in produce form
-    IF AllMissing(vs) \/ AllEqual(vs) THEN {0}
-    ELSE LET d0 == DMin(BSub(MaxPat(vs, 1, <<>>), MinPat(vs, 1, <<>>)))
-         IN {d \in d0..(d0 + Slack) : d <= 63}      \* the width itself is a 6-bit field; a wider range cannot be compressed
-
-StrColumnBits(w, vs) ==
-    IF AllMissing(vs) THEN Ones(w) \o UintBits(0, 6)
-    ELSE IF AllEqual(vs) THEN vs[1].raw \o UintBits(0, 6)
-    ELSE LET RECURSIVE Cat(_)
-             Cat(i) == IF i > Len(vs) THEN <<>> ELSE vs[i].raw \o Cat(i + 1)
-         IN Zeros(w) \o UintBits(w \div 8, 6) \o Cat(1)
-
-(* consume form: one compressed column read at position p; result [vs, n, ok] *)
-ReadNumColumn(t, w, p, codeRecheck) ==
-    LET mn == BitsAt(Oct, DataBit0 + p, w)
-        d == BitsToNat(BitsAt(Oct, DataBit0 + p + w, 6))
-        mnMissing == t # "ref" /\ w > 1 /\ IsAllOnes(mn)
-        one(i) ==
-            LET df == BitsAt(Oct, DataBit0 + p + w + 6 + (i - 1) * d, d)
-                dm == (d > 1 /\ IsAllOnes(df)) \/ (d = 1 /\ df = <<1>>)
-                W == IF d > w THEN d ELSE w                      \* a difference may be written wider than the field
-                sum == BAdd(ZeroExtend(mn, W), ZeroExtend(df, W))   \* W + 1 bits
-                raw == IF dm THEN Ones(w) ELSE LowBits(sum, w)
-            IN [miss |-> dm \/ (codeRecheck /\ w > 1 /\ IsAllOnes(raw)), raw |-> raw,
-                ovf |-> ~dm /\ ~IsAllZeros(SubSeq(sum, 1, W + 1 - w))]
-    IN IF d = 0 \/ mnMissing
-       THEN [vs |-> [i \in 1..nsub |-> [miss |-> mnMissing, raw |-> mn]], n |-> w + 6, ok |-> d = 0, d |-> d]
-       ELSE [vs |-> [i \in 1..nsub |-> [miss |-> one(i).miss, raw |-> one(i).raw]], n |-> w + 6 + nsub * d,
-             ok |-> \A i \in 1..nsub : ~one(i).ovf, d |-> d]
-ReadStrColumn(w, p) ==
-    LET mn == BitsAt(Oct, DataBit0 + p, w)
-        d == BitsToNat(BitsAt(Oct, DataBit0 + p + w, 6))       \* octets
-    IN IF d = 0 THEN [vs |-> [i \in 1..nsub |-> [miss |-> IsAllOnes(mn), raw |-> mn]], n |-> w + 6, ok |-> TRUE, d |-> 0]
-       ELSE [vs |-> [i \in 1..nsub |-> LET r == BitsAt(Oct, DataBit0 + p + w + 6 + (i - 1) * 8 * d, 8 * d) IN [miss |-> IsAllOnes(r), raw |-> r]],
-             n |-> w + 6 + nsub * 8 * d, ok |-> IsAllZeros(mn) /\ 8 * d = w, d |-> d]
+(* ---- compressed columns: see Column.tla; here the bit source is the message octets ---------- *)
+SrcBits(p, n) == BitsAt(Oct, DataBit0 + p, n)
+NumColumnD(vs) == {d \in LegalWidths(vs, Slack) : TRUE}
+ReadNumColumn(t, w, p, codeRecheck) == RdNumColumn(SrcBits, nsub, t, w, p, codeRecheck)
+ReadStrColumn(w, p) == RdStrColumn(SrcBits, nsub, w, p)
 
 (***************************************************************************)
 (* One field: the set of possible [vs, fb, n, ok] for type t, width w.     *)
@@ -176,13 +128,18 @@ ReadStrColumn(w, p) ==
 Field(t, w, forced) ==
     IF Mode = "produce" THEN
         LET idx == Len(out) + 1
-            vs == [i \in 1..NSubCols |->
-                     LET raw == IF forced # <<>> THEN forced
-                                ELSE Pattern(t, w, idx, IF cmp THEN i ELSE sub) IN Val(t, w, raw)]
-        IN IF ~cmp THEN {[vs |-> vs, fb |-> vs[1].raw, n |-> w, ok |-> TRUE, d |-> -1]}
-           ELSE IF t = "str" THEN {[vs |-> vs, fb |-> StrColumnBits(w, vs), n |-> Len(StrColumnBits(w, vs)), ok |-> TRUE,
-                                    d |-> IF AllMissing(vs) \/ AllEqual(vs) THEN 0 ELSE w \div 8]}
-           ELSE {[vs |-> vs, fb |-> NumColumnBits(w, vs, d), n |-> Len(NumColumnBits(w, vs, d)), ok |-> TRUE, d |-> d] : d \in NumColumnD(vs)}
+            rotating == [i \in 1..NSubCols |->
+                           LET raw == IF forced # <<>> THEN forced
+                                      ELSE Pattern(t, w, idx, IF cmp THEN i ELSE sub) IN Val(t, w, raw)]
+            columns == IF ValueMode = "all" /\ forced = <<>> /\ t \in {"num", "code", "str"}
+                       THEN [1..NSubCols -> {Val(t, w, r) : r \in AllPatterns(t, w)}]
+                       ELSE {rotating}
+            results(vs) ==
+                IF ~cmp THEN {[vs |-> vs, fb |-> vs[1].raw, n |-> w, ok |-> TRUE, d |-> -1]}
+                ELSE IF t = "str" THEN {[vs |-> vs, fb |-> StrColumnBits(w, vs), n |-> Len(StrColumnBits(w, vs)), ok |-> TRUE,
+                                         d |-> IF AllMissing(vs) \/ AllEqual(vs) THEN 0 ELSE w \div 8]}
+                ELSE {[vs |-> vs, fb |-> NumColumnBits(w, vs, d), n |-> Len(NumColumnBits(w, vs, d)), ok |-> TRUE, d |-> d] : d \in NumColumnD(vs)}
+        IN UNION {results(vs) : vs \in columns}
     ELSE
         LET avail(n) == DataBit0 + pos + n <= 8 * Len(Oct)
             short == {[vs |-> [i \in 1..NSubCols |-> [miss |-> TRUE, raw |-> <<>>]], fb |-> <<>>, n |-> 0, ok |-> FALSE, d |-> -1]}
@@ -499,7 +456,7 @@ NextSubset ==
 Finished == err # "" \/ (AtEnd /\ (cmp \/ sub = nsub))
 
 Init ==
-    /\ tid \in 1..Len(Cases)
+    /\ tid \in 1..NCases
     /\ IF Mode = "produce"
        THEN ed \in Editions /\ cmp \in Compressions /\ nsub \in SubsetCounts /\ seed \in Seeds
        ELSE ed = Hdrs[tid].ed /\ cmp = Hdrs[tid].cmp /\ nsub = Hdrs[tid].nsub /\ seed = 0
